@@ -124,7 +124,7 @@ Definition seq_out_events (cfg : kcfg) (o : list seq_out) : list os_ev :=
 
 (* ------------------------------------------------------------------ small helpers *)
 Definition lay_event (cfg : kcfg) (l : layout) (press : bool) (c : coord) : outcome layout :=
-  layout_event (kc_layout cfg) l press c.
+  layout_event2 (kc_layout cfg) l press c.
 
 Definition states_has_coord (l : layout) (c : coord) : bool :=
   existsb (fun s => match st_coord s with Some c' => coord_eqb c' c | None => false end) (states l).
@@ -405,7 +405,7 @@ Fixpoint custom_release (cfg : kcfg) (k : kstate) (l : layout) (acs : list custo
   end.
 
 Definition handle_keystate_changes (cfg : kcfg) (k : kstate) : outcome (kstate * list N * list os_ev) :=
-  '(l, ce) <- layout_tick (kc_layout cfg) (k_layout k) ;;
+  '(l, ce) <- layout_tick2 (kc_layout cfg) (k_layout k) ;;
   let cur := keycodes l in
   (* unmodded / unshifted come first *)
   let '(k, reverse_release) :=
@@ -599,7 +599,8 @@ Definition k_is_idle (k : kstate) : bool :=
   && negb (existsb (fun s => match s with
                              | SeqCustomPending _ | SeqCustomActive _ => true
                              | NormalKey _ _ _ => pressed_keys_means_not_idle
-                             | _ => false end) (states l)).
+                             | _ => false end) (states l))
+  && (match chords2 l with Some ch => chv2_is_idle ch | None => true end).
 
 (* is_idle() with the conjunct that depends on the configuration: an open recording keeps kanata awake when the
    recorded delays are used *)
@@ -615,4 +616,5 @@ Definition k_can_block (cfg : kcfg) (k : kstate) (ms : N) : kstate * bool :=
   let passed := match hist_keys (k_layout k) with
                 | (_, since) :: _ => kc_switch_max_key_timing cfg <=? since
                 | [] => true end in
-  (k, idle && negb counting && passed).
+  let accepts := match chords2 (k_layout k) with Some ch => chv2_accepts ch | None => true end in
+  (k, idle && negb counting && passed && accepts).
